@@ -155,7 +155,7 @@ func argValue(kind string, e types.EnvType) types.MalType {
 	case "neg":
 		return -1
 	case "big":
-		return 1 << 40
+		return 200000
 	case "str":
 		return "text"
 	case "kw":
